@@ -853,6 +853,15 @@ S('silent-154-new-checked-match', ['C03', 'C07'], 'src/wire/ieee802154.rs',
             _ => (),
         }
 """, 'matches! rewritten as match')
+V('c06-154-emit-keeps-reserved-bits', 'C06', 'src/wire/ieee802154.rs',
+  """        frame.buffer.as_mut()[field::FRAMECONTROL].fill(0);
+""",
+  """""", 'R06.3b')
+S('silent-154-fc-or-after-clear', ['C06', 'C10'], 'src/wire/ieee802154.rs',
+  """            raw = (raw & !(1 << $bit)) | ((val as u16) << $bit);
+""",
+  """            raw |= ((val as u16) << $bit);
+""", 'OR-only flag setters are harmless in emit once the frame control word is zeroed first')
 S('silent-tcp-ack-check-swapped-tests', ['C05', 'C01', 'C04'], T,
   """                if ack_number < ack_min {
                     net_debug!(
